@@ -144,6 +144,10 @@ def check(ctx):
                 meta.append(('grad', where, g.tolist()))
                 reqs.append(dict(op='C10.r2', x=x.tolist(), X=gp.X.tolist()))
                 meta.append(('r2', where, None))
+                if q == 0:
+                    reqs.append(dict(op='C10.fastmean', x=x.tolist(), X=gp.X.tolist(), var=gp._rbf_var, factor=gp._rbf_factor, bias=gp._rbf_bias,
+                                     alpha=[float(v) for v in np.ravel(gp._rbf_woodbury)]))
+                    meta.append(('fastmean', where, (float(np.ravel(mu_f)[0]), [float(v) for v in np.ravel(gmu_f)])))
             if bad:
                 break
             # deep tail: a threshold 45 sd below the prediction (cdf underflows in float, log cdf does not)
@@ -216,6 +220,10 @@ def check(ctx):
             elif kind == 'inside':
                 if m['inside'] != real:
                     ctx.corr_break('within-bounds', case, m['inside'], real)
+            elif kind == 'fastmean':
+                sc = max([abs(v) for v in real[1]] + [1e-12])
+                if not math.isclose(m['mean'][0], real[0], rel_tol=1e-8, abs_tol=1e-9) or not np.allclose(m['gradMean'], real[1], rtol=1e-7, atol=1e-8 * sc):
+                    ctx.corr_break('fast-mean', case, dict(mean=m['mean'][0], grad=m['gradMean']), dict(mean=real[0], grad=real[1]))
             elif kind == 'r2':
                 if not np.allclose(m['fast'], m['direct'], rtol=1e-9, atol=1e-9):
                     ctx.corr_break('r2', case, m['fast'][:3], m['direct'][:3])
